@@ -21,7 +21,9 @@ PLAN = dict(
                 "captured variables, Invoke, Substitute on objects, C06_sim_exec_heap (all eleven statement forms) and C06_codegen_simulates_partial / "
                 "C06_codegen_correct_linearized_partial: every terminating run of the linear machine is reproduced by run_x86 on the emitted code for ALL statement forms; "
                 "remaining hypotheses: heap_fits (the run stays inside the 32 MiB heap region; necessary, real code segfaults beyond it) and, for programs that are not "
-                "linearizer outputs, ann_check_prog (proved for every output of the linearizer); the implementation's output is executed on the ISA model on every run",
+                "linearizer outputs, ann_check_prog (proved for every output of the linearizer); C06_codegen_simulates / C06_codegen_correct_linearized: the same "
+                "WITHOUT the checked hypotheses asm_wf cs = None and code_small cs (theorems now, Props/C14.v C14_x86_compile_asm_wf / _code_small), under the boolean "
+                "guards labels_guard, imm_guard, size_guard on the program; the implementation's output is executed on the ISA model on every run",
     assumptions=["Sem/X86Sem.v is the meaning of the emitted instructions (validated against the AxCut machine on every run; native execution in C01)",
                  "Sem/AxSem.v run_linear is the meaning of linear AxCut"],
     trusted=["coq/Sem/X86Sem.v (x86-64 subset semantics, external-call model)", "coq/Sem/AxSem.v (AxCut machines)"],
